@@ -379,7 +379,7 @@ Section Loops.
       + apply ret_inv in H as (-> & -> & ->). exact HI.
     - destruct (change_has_assets_left cl).
       + minv H. apply (pres_pack_nfts orc) in H0. subst s1.
-        destruct a as [|m ms]; [apply lift_inv in H1 as (? & _); discriminate|].
+        destruct (existsb ma_positive a); [|apply lift_inv in H1 as (? & _); discriminate].
         minv H1. eapply change_outputs_loop_inv in H; eauto.
       + apply ret_inv in H as (-> & -> & ->). exact HI.
   Qed.
